@@ -1,6 +1,6 @@
 // Package tlx: independent reading of the TL schema files (refschema), schema-directed reference codec (refcodec),
 // registry-directed Go value builder, bridges and TL equality - shared by checks C01 C02 C13 C15.
-package tlx
+package tls
 
 import (
 	"fmt"
@@ -46,8 +46,42 @@ type Schema struct {
 	Defs   []*Def
 	ByID   map[uint32]*Def
 	ByName map[string]*Def
-	// Types maps a boxed type name to its constructors (types section), in file order.
+	// Types maps "file:boxed type name" to its constructors (types section), in file order.
 	Types map[string][]*Def
+	// SkipCRC: the ids of this schema are arbitrary (generated test schemas), the CRC-32 rule is not applied
+	SkipCRC bool
+}
+
+// ParseText reads a schema from text (used for generated schemas); file is the name its definitions carry.
+func ParseText(text, file string) (*Schema, error) {
+	dir, err := os.MkdirTemp("", "verif-schema-")
+	if err != nil {
+		return nil, err
+	}
+	defer os.RemoveAll(dir)
+	path := filepath.Join(dir, file)
+	if err := os.WriteFile(path, []byte(text), 0o644); err != nil {
+		return nil, err
+	}
+	defs, err := parseFileAs(path, file, false)
+	if err != nil {
+		return nil, err
+	}
+	s := &Schema{ByID: map[uint32]*Def{}, ByName: map[string]*Def{}, Types: map[string][]*Def{}, SkipCRC: true}
+	for _, d := range defs {
+		s.Defs = append(s.Defs, d)
+		if d.HasID {
+			if o, dup := s.ByID[d.ID]; dup {
+				return nil, fmt.Errorf("duplicate id %08x: %s and %s", d.ID, o.Name, d.Name)
+			}
+			s.ByID[d.ID] = d
+		}
+		s.ByName[file+":"+d.Name] = d
+		if !d.Function {
+			s.Types[file+":"+d.Result] = append(s.Types[file+":"+d.Result], d)
+		}
+	}
+	return s, nil
 }
 
 var defRe = regexp.MustCompile(`^([A-Za-z0-9_.]+)(#[0-9a-fA-F]+)?\s+(.*?)\s*=\s*([A-Za-z0-9_.<> ]+?)\s*;$`)
